@@ -87,6 +87,21 @@ AxisEquiv(rots, i, j) ==
 ReqMeshLen(base, rots) ==
   [k \in I3 |-> Max(1, MaxOf({base[j] : j \in {j \in I3 : AxisEquiv(rots, k, j)}}))]
 ReqMesh(c) == IF c.len THEN ReqMeshLen(c.mesh, Rots(c)) ELSE c.mesh
+(* ReqMesh is a function of the raw numbers and the point group only: in particular it does *)
+(* NOT depend on is_mesh_symmetry (c.sym), and symmetry-equivalent axes get equal numbers.     *)
+ReqEquivalentAxesEqual(c, m) ==
+  c.len => \A i, j \in I3 : AxisEquiv(Rots(c), i, j) => m[i] = m[j]
+
+(* Lengths chosen just across a rounding boundary.  On a lattice whose symmetry-equivalent axes *)
+(* j (strained, "long" or "short" by a relative amount d far below the symmetry tolerance) and   *)
+(* p (nominal) differ, the length L with  L |a*_p| = k + 1/2 +- e,  0 < e < (k + 1/2) d,  gives   *)
+(* raw numbers that differ on the two axes although they are equivalent:                          *)
+(*   nominal axis:  k + 1 for "above", k for "below";                                             *)
+(*   strained axis: k for "long" (reciprocal vector shorter), k + 1 for "short".                  *)
+BoundaryRaw(b) ==
+  [strained |-> IF b.sign = "long" THEN b.k ELSE b.k + 1,
+   nominal |-> IF b.side = "above" THEN b.k + 1 ELSE b.k]
+BoundaryCases(K) == {[k |-> k, side |-> sd, sign |-> sg] : k \in 1..K, sd \in {"above", "below"}, sg \in {"long", "short"}}
 (* a length given to Phonopy.init_mesh forces gamma-centring (documented) *)
 ReqGamma(c) == (c.len /\ c.level = "api") \/ c.gamma
 
@@ -360,6 +375,19 @@ InvLengthRule ==
      \A g \in DOMAIN GroupTable :
         \A b \in {<<x, y, z>> : x \in 0..4, y \in 0..4, z \in 0..4} :
            Length2Mesh(b, GroupTable[g]) = ReqMeshLen(b, GroupTable[g])
+(* whatever the case, both axes must end with the larger of the two raw numbers *)
+BoundaryTheorem(K) ==
+  \A b \in BoundaryCases(K) : \A g \in DOMAIN GroupTable :
+     \A j, p \in I3 :
+        (j # p /\ AxisEquiv(GroupTable[g], j, p)) =>
+           LET o == CHOOSE o \in I3 : o # j /\ o # p
+               raw == [i \in I3 |-> IF i = j THEN BoundaryRaw(b).strained
+                                    ELSE IF i = p THEN BoundaryRaw(b).nominal ELSE 1]
+               m == ReqMeshLen(raw, GroupTable[g])
+           IN  /\ m[j] = m[p] /\ m[j] = Max(BoundaryRaw(b).strained, BoundaryRaw(b).nominal)
+               /\ Length2Mesh(raw, GroupTable[g]) = m
+InvBoundaryTheorem == pc = "choose" => BoundaryTheorem(3)
+InvEquivalentAxesEqual == AtEnd => ReqEquivalentAxesEqual(cfg, eff.mesh)
 (* the characterisation used on logged tables accepts the constructed table *)
 InvCharacterisation == AtEnd => IsOrbitMinMap(cfg, eff.mesh, isShift, UsedOps, map)
 (* reduction is as strong as the allowed group permits whenever the code uses the full group *)
